@@ -157,9 +157,9 @@ struct Scn {
         prom.emplace(fut->get_promise());
         gate.emplace();
         gate_prom.emplace(gate->get_promise());
-        S().name_obj(&fut->_awaiter, "slot");
-        S().name_obj(&prom->_owner, "owner");
-        S().name_obj(&gate->_awaiter, "gate");
+        S().name_obj(&fut->VN_future_common__awaiter, "slot");
+        S().name_obj(&prom->VN_promise__owner, "owner");
+        S().name_obj(&gate->VN_future_common__awaiter, "gate");
         S().name_ptr(&awaiter::instance, "inst");
         S().name_ptr(&awaiter::disabled, "ready");
         co.resize(n);
